@@ -33,8 +33,24 @@ Definition d_srun_in (s : sx) : option (Z * bool * Z * Z * Z) :=
 (** a run whose local UDP / TCP port another socket could bind while it was in flight is reported as status 77 *)
 Definition d_srun_out (s : sx) : option (Z * list (Z * list Z * bool * bool * Z)) :=
   match s with
-  | L [A status; L hops; A held] => match dec_list d_shop hops with Some h => Some ((if held =? 0 then 77 else status), h) | None => None end
+  | L [A status; L hops; A held; A _; A _] => match dec_list d_shop hops with Some h => Some ((if held =? 0 then 77 else status), h) | None => None end
   | _ => None
+  end.
+
+(** the virtual instants at which a run started and ended *)
+Definition d_srun_span (s : sx) : option (Z * Z) :=
+  match s with L [A _; L _; A _; A t0; A t1] => Some (t0, t1) | _ => None end.
+
+(** two runs that are alive at the same time never share a flow identifier (a port the OS hands out again AFTER a run has
+    ended and released it is not a clash) *)
+Fixpoint flows_ok (l : list (option Z * (Z * Z))) : bool :=
+  match l with
+  | [] => true
+  | (k, (a0, a1)) :: r =>
+      forallb (fun x => match k, fst x with
+                        | Some k1, Some k2 => negb (k1 =? k2) || (a1 <? fst (snd x)) || (snd (snd x) <? a0)
+                        | _, _ => true end) r
+      && flows_ok r
   end.
 
 Fixpoint first_key (hops : list (Z * list Z * bool * bool * Z)) : option Z :=
@@ -63,11 +79,17 @@ Fixpoint all2s (key n : Z) (a : list (Z * option Z * bool)) (b : list (Z * list 
 
 (** the network answers the probe of flow [key] with TTL t after exactly (2 + key mod 7 + t) ms; a duplicate follows
     3 ms later.  Under the virtual clock the RTT of a hop is therefore exactly that of the FIRST reply. *)
-Definition rtts_ok (key : Z) (hops : list (Z * list Z * bool * bool * Z)) : bool :=
-  forallb (fun h => match h with (t, ip, _, _, rtt) => match ip with [] => true | _ => rtt =? 1000 * (2 + key mod 7 + t) end end) hops.
+(** [extra]: added to every round trip (socket mode 2).  [slack]: in socket mode 1 the sender is inside WriteTo for 20 ms while
+    the reply is already there; the serial engine (one goroutine) and the parallel engine's first probe (the reader waits
+    for the first send to return) only read it afterwards, so the measured value may exceed the network's by at most the
+    write's duration - well inside the property's one-poll-interval tolerance - and is never below it. *)
+Definition rtts_ok (extra_slack : Z * Z) (key : Z) (hops : list (Z * list Z * bool * bool * Z)) : bool :=
+  let (extra, slack) := extra_slack in
+  forallb (fun h => match h with (t, ip, _, _, rtt) => match ip with [] => true | _ =>
+             (1000 * (2 + key mod 7 + t) + extra <=? rtt) && (rtt <=? Z.max (1000 * (2 + key mod 7 + t) + extra) slack) end end) hops.
 
 (** 0 ok; 1 foreign router among the hops; 4 not the solo result; 5 hop RTT is not send -> first reply *)
-Definition srun_verdict (i : Z * bool * Z * Z * Z) (o : Z * list (Z * list Z * bool * bool * Z)) : Z * option Z :=
+Definition srun_verdict (extra : Z * Z) (i : Z * bool * Z * Z * Z) (o : Z * list (Z * list Z * bool * bool * Z)) : Z * option Z :=
   match i, o with
   | (proto, v6, last, _, _), (status, hops) =>
       if status =? 77 then (6, None) else
@@ -76,7 +98,7 @@ Definition srun_verdict (i : Z * bool * Z * Z * Z) (o : Z * list (Z * list Z * b
       | Some key =>
           let pa := shared_path key in
           if (status =? 0) && all2s key (pa_n pa) (predicted pa 1 last) hops then
-            ((if rtts_ok key hops then 0 else 5), Some (key + 65536 * (proto + 4 * (if v6 then 1 else 0))))
+            ((if rtts_ok extra key hops then 0 else 5), Some (key + 65536 * (proto + 4 * (if v6 then 1 else 0))))
           else if existsb (fun h => match h with (_, ip, _, _, _) => match router_key ip with Some (k', _) => negb (k' =? key) | None => false end end) hops
                then (1, Some key) else (4, Some key)
       end
@@ -86,17 +108,23 @@ Fixpoint nodupz (l : list Z) : bool := match l with [] => true | x :: r => negb 
 
 Definition check_shared (prop : Z) (inp impl : sx) : sx :=
   match inp, impl with
-  | L [A 18; A filt; L rin], L rout =>
-      match dec_list d_srun_in rin, dec_list d_srun_out rout with
+  | L [A 18; A filt_slow; L rin], L rout0 =>
+      match dec_list d_srun_in rin, dec_list d_srun_out rout0 with
       | Some rin, Some rout =>
-          let cls := 1 + 2 * Z.min 7 (Z.of_nat (length rin)) + (if filt =? 0 then 0 else 16) in
+          (* filt_slow = filters on (1) + 2 * socket mode: 0 immediate, 1 every write returns 20 ms after the probe left,
+             2 the socket takes the bytes 3 ms after WriteTo was entered - the probe is handed to the network when SendProbe
+             is called, so in mode 2 every round trip is 3 ms longer *)
+          let filt := filt_slow mod 2 in
+          let extra := (if filt_slow / 2 =? 2 then 3000 else 0, if filt_slow / 2 =? 1 then 20000 else 0) in
+          let srun_verdict := srun_verdict extra in
+          let cls := 1 + 2 * Z.min 7 (Z.of_nat (length rin)) + (if filt =? 0 then 0 else 16) + 32 * (filt_slow / 2) in
           if negb (Nat.eqb (length rin) (length rout)) then badcase else
           let vs := map (fun io => srun_verdict (fst io) (snd io)) (combine rin rout) in
           if existsb (fun v => fst v =? 1) vs then verdict V_SPECFAIL cls (if prop =? 11 then [11; 1] else [1; 2]) (L (map (fun v => A (fst v)) vs))
           else if (prop =? 11) && existsb (fun v => fst v =? 6) vs then verdict V_SPECFAIL cls [11; 6] (L (map (fun v => A (fst v)) vs))
-          else if existsb (fun v => fst v =? 4) vs then verdict V_SPECFAIL cls (if prop =? 11 then [11; 4] else [2; 3]) (L (map (fun v => A (fst v)) vs))
+          else if existsb (fun v => fst v =? 4) vs then verdict V_SPECFAIL cls (if prop =? 11 then [11; 4] else if prop =? 6 then [6; 6] else [2; 3]) (L (map (fun v => A (fst v)) vs))
           else if (prop =? 5) && existsb (fun v => fst v =? 5) vs then verdict V_SPECFAIL cls [5; 2] (L (map (fun v => A (fst v)) vs))
-          else if negb (nodupz (flat_map (fun v => match snd v with Some k => [k] | None => [] end) vs)) then verdict V_SPECFAIL cls [11; 5] (L [])
+          else if negb (flows_ok (combine (map snd vs) (map (fun o => match d_srun_span o with Some sp => sp | None => (0, 0) end) rout0))) then verdict V_SPECFAIL cls [11; 5] (L [])
           else verdict V_OK cls [] (L [])
       | _, _ => badcase
       end
